@@ -76,6 +76,13 @@ def gen_ops(rnd, n, mode=None):
     kg = KeyGen(rnd, mode)
     keys = set()
     ops = []
+    if kg.mode == "comb":
+        # the whole comb first (in random order): a full spine of branch nodes below the prefix
+        comb = [kg.comb_prefix + bytes([c]) for c in kg.comb]
+        rnd.shuffle(comb)
+        for k in comb:
+            ops.append(["set", k.hex(), (bytes([rnd.randrange(1, 256)]) * rnd.choice([1, 2, 33])).hex()])
+            keys.add(k)
     for _ in range(n):
         r = rnd.random()
         if keys and rnd.random() < 0.4:
